@@ -213,3 +213,46 @@ func Select(cases ...Case) int {
 	}
 	return i
 }
+
+// SendWith is Send for timer threads: cancelled (may be nil) makes the send give up and return
+// false as soon as it holds; onSend runs atomically with the delivery.
+func (c *Chan[T]) SendWith(v T, cancelled func() bool, onSend func()) bool {
+	if !core.Controlled {
+		c.real <- v
+		return true
+	}
+	core.Point(core.KSend, unsafe.Pointer(c), func() bool {
+		return (cancelled != nil && cancelled()) || c.closed || len(c.buf) < c.cap
+	})
+	if core.Exiting() {
+		return false
+	}
+	if cancelled != nil && cancelled() {
+		core.Done(core.KLoad, unsafe.Pointer(c), 0)
+		return false
+	}
+	if c.closed || len(c.buf) >= c.cap {
+		return false
+	}
+	if onSend != nil {
+		onSend()
+	}
+	core.Acquire(&c.slot[c.sent%c.cap])
+	var vc core.VC
+	core.Release(&vc, false)
+	c.buf = append(c.buf, v)
+	c.clk = append(c.clk, vc)
+	c.sent++
+	core.Done(core.KSend, unsafe.Pointer(c), 0)
+	return true
+}
+
+// TrySend is a non-blocking send (pass-through mode only: real tickers drop ticks).
+func (c *Chan[T]) TrySend(v T) bool {
+	select {
+	case c.real <- v:
+		return true
+	default:
+		return false
+	}
+}
